@@ -3,6 +3,10 @@
 package fdo
 
 import (
+	nethttp "net/http"
+	"net/url"
+	"strconv"
+
 	"bytes"
 	"context"
 	"crypto/rsa"
@@ -201,5 +205,68 @@ func VerifC02_HonestServed() {
 	rt, _ := w.srv.Respond(context.Background(), protocol.TO2ProveDeviceMsgType, bytes.NewReader(wire))
 	verif.Assert(rt == protocol.TO2SetupDeviceMsgType, "the proven device is answered with SetupDevice")
 	verif.Assert(len(w.sess.setParam) == 1 && verif.BytesEq(w.sess.setParam[0], xB), "and the key exchange is completed with its parameter")
+	verif.Reached("end")
+}
+
+// before ProveDevice was accepted there is no tunnel: a peer that only sent
+// HelloDevice cannot get 66/68/70 processed by encrypting them under a key of its
+// own choosing (all-zero, arbitrary, empty) - the session has no key yet
+func VerifC02_NoTunnelBeforeProveDevice() {
+	verif.NoPanic()
+	verif.SetGhost("clock-concrete", 1)
+	verif.Bound("C02 pre-proof", "owner HTTP handler; session after HelloDevice holding the REAL key-exchange session (ECDH256, ECDH384, DHKEXid14 or ASYMKEX2048 with cipher A128GCM, A256GCM or COSEAES128CTR) as created by proveOVHdr; one request 66, 68 or 70 encrypted by the peer with a SessionCrypter of the same suite under an all-zero key, an arbitrary key, or sent as plaintext")
+	c := vC08Setup()
+	w := c.w
+	s := w.newSession("TA")
+	c.fill(s, pTO2Hello, "A")
+	suite := []kex.Suite{kex.ECDH256Suite, kex.ECDH384Suite, kex.DHKEXid14Suite, kex.ASYMKEX2048Suite}[verif.Choose("kex", 4)]
+	cipher := []kex.CipherSuiteID{kex.A128GcmCipher, kex.A256GcmCipher, kex.CoseAes128CtrCipher}[verif.Choose("cipher", 3)]
+	verif.SetGhost("exp-leading-zero-bytes", 0)
+	verif.SetGhost("exp-nondegenerate", 1)
+	verif.SetGhost("rand-top-nonzero", 1)
+	sess := suite.New(nil, cipher)
+	var pub *rsa.PublicKey
+	if suite == kex.ASYMKEX2048Suite {
+		pub = verif.NewRSAPub(verif.Bytes("n", 256))
+	}
+	_, err := sess.Parameter(verif.M_RandReader, pub)
+	verif.Assert(err == nil, "owner key-exchange parameter")
+	s.xSuite, s.xSess = suite, sess
+	msgType := []int{66, 68, 70}[verif.Choose("msgtype", 3)]
+	plain := c.body(msgType, s)
+	var body []byte
+	cs := cipher.Suite()
+	switch mode := verif.Choose("attack", 3); mode {
+	case 2:
+		body = plain
+	default:
+		att := kex.SessionCrypter{ID: cipher, Cipher: cs}
+		att.SEK = make([]byte, cs.EncryptAlg.KeySize())
+		if cs.MacAlg != 0 {
+			att.SVK = make([]byte, cs.MacAlg.KeySize())
+		}
+		if mode == 1 {
+			att.SEK = verif.Bytes("attsek", len(att.SEK))
+			if cs.MacAlg != 0 {
+				att.SVK = verif.Bytes("attsvk", len(att.SVK))
+			}
+		}
+		msg, err := att.Encrypt(verif.M_RandReader, cbor.RawBytes(plain))
+		verif.Assert(err == nil, "harness: attacker encrypts")
+		body, err = cbor.Marshal(msg)
+		verif.Assert(err == nil, "harness: encode")
+	}
+	hdr := nethttp.Header{}
+	hdr.Set("Authorization", "Bearer TA")
+	req := &nethttp.Request{Method: "POST", URL: &url.URL{Path: "/fdo/101/msg/" + strconv.Itoa(msgType)}, Header: hdr,
+		Body: io.NopCloser(bytes.NewReader(body)), ContentLength: int64(len(body))}
+	rec := &vRecorder{hdr: nethttp.Header{}}
+	c.h.ServeHTTP(rec, req)
+	rt, _ := strconv.Atoi(rec.hdr.Get("Message-Type"))
+	verif.Assert(rt == 255, "a TO2 message after ProveDevice's position is answered with an error while the device has not been proven, whatever key the peer chose")
+	verif.Assert(w.count("ReplaceVoucher")+w.count("HandleInfo")+w.count("ProduceInfo") == 0, "and has no effect")
+	if a := w.sessions["TA"]; a != nil {
+		verif.Assert(a.mtu == nil && a.replHmac == nil && a.devmod == nil, "and leaves no post-proof state")
+	}
 	verif.Reached("end")
 }
